@@ -168,13 +168,16 @@ Proof. vm_compute. split; reflexivity. Qed.
 
 (* the tree as found (frozen table of 34f49d8): the same checks name the defects the -race harness confirmed *)
 Theorem lock_table_asis_refuted :
-  TableAsIs.uncovered = ["formattedstore.FormattedProvider.openStores"; "mem.Provider.dbs"; "mem.memStore.config"]%string /\
+  TableAsIs.uncovered = ["formattedstore.FormattedProvider.openStores"; "leveldb.Provider.dbs"; "mem.Provider.dbs"; "mem.memStore.config"]%string /\
   TableAsIs.not_atomic =
     ["mem.memStore.Query"; "cachedstore.store.Put"; "cachedstore.store.Get"; "cachedstore.store.GetTags";
      "cachedstore.store.GetBulk"; "cachedstore.store.Query"; "cachedstore.store.Delete"; "cachedstore.store.Batch";
      "cachedstore.store.Flush"; "batchedstore.store.Get"; "batchedstore.store.GetTags"; "batchedstore.store.GetBulk";
-     "batchedstore.store.Query"; "batchedstore.store.Batch"; "localkms.LocalKMS.writeToStore"; "ws.getConnPool"]%string.
-Proof. vm_compute. split; reflexivity. Qed.
+     "batchedstore.store.Query"; "batchedstore.store.Batch"; "localkms.LocalKMS.writeToStore"; "ws.getConnPool"; "did.Store.SaveDID";
+     "leveldb.Provider.OpenStore"]%string /\
+  TableAsIs.split_rmw = [("batchedstore.store.Batch", "batchedstore.store.currentBatch");
+                         ("leveldb.Provider.OpenStore", "leveldb.Provider.dbs")]%string.
+Proof. vm_compute. repeat split; reflexivity. Qed.
 Print Assumptions lock_table_asis_refuted.
 
 (* ---------- the multi-step programs of the code AS FOUND: refuted by a schedule ---------- *)
@@ -255,5 +258,5 @@ Proof. vm_compute. repeat split. Qed.
 
 Example table_nonvacuous :
   (List.length Gen_C13.table >= 100)%nat /\ (List.length shared_fields >= 12)%nat /\
-  (List.length modelled_atomic = 46)%nat /\ (List.length all_locks >= 15)%nat.
+  (List.length modelled_atomic = 48)%nat /\ (List.length all_locks >= 15)%nat.
 Proof. vm_compute. repeat split; repeat constructor. Qed.
